@@ -156,6 +156,40 @@ func init() {
 				{File: fw, Old: "\t// Check for routing loops (is our ID in the path?)\n\tfor _, id := range route.Path {\n\t\tif id == t.localID {\n\t\t\treturn false // Loop detected\n\t\t}\n\t}\n", New: "\tif route.passesThrough(route.OriginAgent) {\n\t\treturn false\n\t}\n"},
 				{File: fw, Old: "// sortRoutes sorts routes for a key by metric (lowest first).\n", New: "func (r *ForwardRoute) passesThrough(id identity.AgentID) bool {\n\tfor _, hop := range r.Path {\n\t\tif hop == id {\n\t\t\treturn true\n\t\t}\n\t}\n\treturn false\n}\n\n// sortRoutes sorts routes for a key by metric (lowest first).\n"},
 			}},
+			{Name: "round3b rewrite: upsertLocked with slot search, negated reject rule, single store-and-sort tail; pruneLocked(drop) shared by disconnect and cleanup (C08/c shape)", Edits: []Edit{
+				{File: tb, Old: "import (\n\t\"fmt\"\n", New: "import (\n\t\"slices\"\n\t\"fmt\"\n"},
+				{File: tb, Old: "// AddRoute adds or updates a route in the table.\n// Returns true if the route was added/updated, false if rejected (e.g., loop detected).\nfunc (t *Table) AddRoute(route *Route) bool {\n\tif route == nil || route.Network == nil {\n\t\treturn false\n\t}\n\n\t// Check for routing loops (is our ID in the path?)\n\tfor _, id := range route.Path {\n\t\tif id == t.localID {\n\t\t\treturn false // Loop detected\n\t\t}\n\t}\n\n\tkey := route.Network.String()\n\tnow := time.Now()\n\n\tt.mu.Lock()\n\tdefer t.mu.Unlock()\n\n\t// Check if we already have a route from this origin\n\texisting := t.routes[key]\n\tfor i, r := range existing {\n\t\tif r.OriginAgent == route.OriginAgent {\n\t\t\t// Update if newer sequence or better metric\n\t\t\tif route.Sequence > r.Sequence ||\n\t\t\t\t(route.Sequence == r.Sequence && route.Metric < r.Metric) {\n\t\t\t\tcloned := route.Clone()\n\t\t\t\tcloned.LastUpdate = now\n\t\t\t\tt.routes[key][i] = cloned\n\t\t\t\tt.sortRoutes(key)\n\t\t\t\treturn true\n\t\t\t}\n\t\t\treturn false // Older/worse route\n\t\t}\n\t}\n\n\t// New route from this origin\n\tcloned := route.Clone()\n\tcloned.LastUpdate = now\n\tt.routes[key] = append(t.routes[key], cloned)\n\tt.sortRoutes(key)\n\treturn true\n}\n\n// sortRoutes sorts routes for a key by metric (lowest first).\nfunc (t *Table) sortRoutes(key string) {\n\troutes := t.routes[key]\n\tsort.Slice(routes, func(i, j int) bool {\n\t\treturn routes[i].Metric < routes[j].Metric\n\t})\n}\n\n// RemoveRoute removes a route from a specific origin.\nfunc (t *Table) RemoveRoute(network *net.IPNet, originAgent identity.AgentID) bool {\n\tif network == nil {\n\t\treturn false\n\t}\n\n\tkey := network.String()\n\n\tt.mu.Lock()\n\tdefer t.mu.Unlock()\n\n\troutes := t.routes[key]\n\tfor i, r := range routes {\n\t\tif r.OriginAgent == originAgent {\n\t\t\t// Remove this route\n\t\t\tt.routes[key] = append(routes[:i], routes[i+1:]...)\n\t\t\tif len(t.routes[key]) == 0 {\n\t\t\t\tdelete(t.routes, key)\n\t\t\t}\n\t\t\treturn true\n\t\t}\n\t}\n\treturn false\n}\n\n// RemoveRoutesFromPeer removes all routes learned from a specific peer.\nfunc (t *Table) RemoveRoutesFromPeer(peerID identity.AgentID) int {\n\tt.mu.Lock()\n\tdefer t.mu.Unlock()\n\n\tcount := 0\n\tfor key, routes := range t.routes {\n\t\tfiltered := routes[:0]\n\t\tfor _, r := range routes {\n\t\t\tif r.NextHop != peerID {\n\t\t\t\tfiltered = append(filtered, r)\n\t\t\t} else {\n\t\t\t\tcount++\n\t\t\t}\n\t\t}\n\t\tif len(filtered) == 0 {\n\t\t\tdelete(t.routes, key)\n\t\t} else {\n\t\t\tt.routes[key] = filtered\n\t\t}\n\t}\n\treturn count\n}\n", New: "// AddRoute adds or updates a route in the table.\n// Returns true if the route was added/updated, false if rejected (e.g., loop detected).\nfunc (t *Table) AddRoute(route *Route) bool {\n\tif route == nil || route.Network == nil {\n\t\treturn false\n\t}\n\n\t// Check for routing loops (is our ID in the path?)\n\tif slices.Index(route.Path, t.localID) != -1 {\n\t\treturn false // Loop detected\n\t}\n\n\tkey := route.Network.String()\n\tnow := time.Now()\n\n\tt.mu.Lock()\n\taccepted := t.upsertLocked(key, route, now)\n\tt.mu.Unlock()\n\n\treturn accepted\n}\n\n// upsertLocked stores a copy of route under key, either replacing the entry of\n// the same origin or appending a new one (caller must hold the write lock).\n// Returns false if the stored entry of that origin is newer or at least as good.\nfunc (t *Table) upsertLocked(key string, route *Route, now time.Time) bool {\n\tbucket := t.routes[key]\n\n\t// Find the slot of this origin; default is the append position\n\tslot := len(bucket)\n\tfor i := range bucket {\n\t\tif bucket[i].OriginAgent == route.OriginAgent {\n\t\t\tslot = i\n\t\t\tbreak\n\t\t}\n\t}\n\tisNewOrigin := slot == len(bucket)\n\n\tif !isNewOrigin {\n\t\t// Update only if newer sequence or better metric\n\t\theld := bucket[slot]\n\t\tif route.Sequence < held.Sequence {\n\t\t\treturn false // Older route\n\t\t}\n\t\tif route.Sequence == held.Sequence && held.Metric <= route.Metric {\n\t\t\treturn false // Same version, not better\n\t\t}\n\t}\n\n\tstored := route.Clone()\n\tstored.LastUpdate = now\n\tif isNewOrigin {\n\t\tbucket = append(bucket, stored)\n\t} else {\n\t\tbucket[slot] = stored\n\t}\n\tt.routes[key] = bucket\n\n\t// Keep the bucket sorted by metric (lowest first)\n\tsort.Slice(bucket, func(i, j int) bool {\n\t\treturn bucket[i].Metric < bucket[j].Metric\n\t})\n\treturn true\n}\n\n// RemoveRoute removes a route from a specific origin.\nfunc (t *Table) RemoveRoute(network *net.IPNet, originAgent identity.AgentID) bool {\n\tif network == nil {\n\t\treturn false\n\t}\n\n\tkey := network.String()\n\n\tt.mu.Lock()\n\tdefer t.mu.Unlock()\n\n\troutes := t.routes[key]\n\tfor i := range routes {\n\t\tif routes[i].OriginAgent != originAgent {\n\t\t\tcontinue\n\t\t}\n\t\t// Remove this route\n\t\tif routes = slices.Delete(routes, i, i+1); len(routes) == 0 {\n\t\t\tdelete(t.routes, key)\n\t\t} else {\n\t\t\tt.routes[key] = routes\n\t\t}\n\t\treturn true\n\t}\n\treturn false\n}\n\n// RemoveRoutesFromPeer removes all routes learned from a specific peer.\nfunc (t *Table) RemoveRoutesFromPeer(peerID identity.AgentID) int {\n\tt.mu.Lock()\n\tcount := t.pruneLocked(func(r *Route) bool {\n\t\treturn r.NextHop == peerID\n\t})\n\tt.mu.Unlock()\n\n\treturn count\n}\n\n// pruneLocked drops every route for which drop returns true, deletes prefixes\n// that end up without routes and returns the number of dropped routes (caller\n// must hold the write lock). The relative order of the remaining routes of a\n// prefix is preserved.\nfunc (t *Table) pruneLocked(drop func(*Route) bool) int {\n\tdropped := 0\n\tfor key, routes := range t.routes {\n\t\tkept := routes[:0]\n\t\tfor _, r := range routes {\n\t\t\tif drop(r) {\n\t\t\t\tdropped++\n\t\t\t\tcontinue\n\t\t\t}\n\t\t\tkept = append(kept, r)\n\t\t}\n\t\tif len(kept) > 0 {\n\t\t\tt.routes[key] = kept\n\t\t} else {\n\t\t\tdelete(t.routes, key)\n\t\t}\n\t}\n\treturn dropped\n}\n"},
+				{File: tb, Old: "// CleanupStaleRoutes removes routes that haven't been updated within maxAge.\n// Local routes (where OriginAgent == localID) are never removed.\n// Returns the number of routes removed.\nfunc (t *Table) CleanupStaleRoutes(maxAge time.Duration) int {\n\tt.mu.Lock()\n\tdefer t.mu.Unlock()\n\n\tnow := time.Now()\n\tremoved := 0\n\n\tfor key, routes := range t.routes {\n\t\tvar kept []*Route\n\t\tfor _, r := range routes {\n\t\t\t// Never remove local routes\n\t\t\tif r.OriginAgent == t.localID {\n\t\t\t\tkept = append(kept, r)\n\t\t\t\tcontinue\n\t\t\t}\n\n\t\t\t// Keep routes that are still fresh\n\t\t\tif now.Sub(r.LastUpdate) <= maxAge {\n\t\t\t\tkept = append(kept, r)\n\t\t\t} else {\n\t\t\t\tremoved++\n\t\t\t}\n\t\t}\n\n\t\tif len(kept) > 0 {\n\t\t\tt.routes[key] = kept\n\t\t} else {\n\t\t\tdelete(t.routes, key)\n\t\t}\n\t}\n\n\treturn removed\n}\n", New: "// CleanupStaleRoutes removes routes that haven't been updated within maxAge.\n// Local routes (where OriginAgent == localID) are never removed.\n// Returns the number of routes removed.\nfunc (t *Table) CleanupStaleRoutes(maxAge time.Duration) int {\n\tt.mu.Lock()\n\n\tnow := time.Now()\n\tremoved := t.pruneLocked(func(r *Route) bool {\n\t\t// Never remove local routes; keep remote routes that are still fresh\n\t\treturn r.OriginAgent != t.localID && now.Sub(r.LastUpdate) > maxAge\n\t})\n\n\tt.mu.Unlock()\n\n\treturn removed\n}\n"},
+			}},
+			{Name: "round3b: negated reject rule lets an equal metric through", ExpectRule: "C10.R1", ExpectKey: "Table", Edits: []Edit{
+				{File: tb, Old: "import (\n\t\"fmt\"\n", New: "import (\n\t\"slices\"\n\t\"fmt\"\n"},
+				{File: tb, Old: "// AddRoute adds or updates a route in the table.\n// Returns true if the route was added/updated, false if rejected (e.g., loop detected).\nfunc (t *Table) AddRoute(route *Route) bool {\n\tif route == nil || route.Network == nil {\n\t\treturn false\n\t}\n\n\t// Check for routing loops (is our ID in the path?)\n\tfor _, id := range route.Path {\n\t\tif id == t.localID {\n\t\t\treturn false // Loop detected\n\t\t}\n\t}\n\n\tkey := route.Network.String()\n\tnow := time.Now()\n\n\tt.mu.Lock()\n\tdefer t.mu.Unlock()\n\n\t// Check if we already have a route from this origin\n\texisting := t.routes[key]\n\tfor i, r := range existing {\n\t\tif r.OriginAgent == route.OriginAgent {\n\t\t\t// Update if newer sequence or better metric\n\t\t\tif route.Sequence > r.Sequence ||\n\t\t\t\t(route.Sequence == r.Sequence && route.Metric < r.Metric) {\n\t\t\t\tcloned := route.Clone()\n\t\t\t\tcloned.LastUpdate = now\n\t\t\t\tt.routes[key][i] = cloned\n\t\t\t\tt.sortRoutes(key)\n\t\t\t\treturn true\n\t\t\t}\n\t\t\treturn false // Older/worse route\n\t\t}\n\t}\n\n\t// New route from this origin\n\tcloned := route.Clone()\n\tcloned.LastUpdate = now\n\tt.routes[key] = append(t.routes[key], cloned)\n\tt.sortRoutes(key)\n\treturn true\n}\n\n// sortRoutes sorts routes for a key by metric (lowest first).\nfunc (t *Table) sortRoutes(key string) {\n\troutes := t.routes[key]\n\tsort.Slice(routes, func(i, j int) bool {\n\t\treturn routes[i].Metric < routes[j].Metric\n\t})\n}\n\n// RemoveRoute removes a route from a specific origin.\nfunc (t *Table) RemoveRoute(network *net.IPNet, originAgent identity.AgentID) bool {\n\tif network == nil {\n\t\treturn false\n\t}\n\n\tkey := network.String()\n\n\tt.mu.Lock()\n\tdefer t.mu.Unlock()\n\n\troutes := t.routes[key]\n\tfor i, r := range routes {\n\t\tif r.OriginAgent == originAgent {\n\t\t\t// Remove this route\n\t\t\tt.routes[key] = append(routes[:i], routes[i+1:]...)\n\t\t\tif len(t.routes[key]) == 0 {\n\t\t\t\tdelete(t.routes, key)\n\t\t\t}\n\t\t\treturn true\n\t\t}\n\t}\n\treturn false\n}\n\n// RemoveRoutesFromPeer removes all routes learned from a specific peer.\nfunc (t *Table) RemoveRoutesFromPeer(peerID identity.AgentID) int {\n\tt.mu.Lock()\n\tdefer t.mu.Unlock()\n\n\tcount := 0\n\tfor key, routes := range t.routes {\n\t\tfiltered := routes[:0]\n\t\tfor _, r := range routes {\n\t\t\tif r.NextHop != peerID {\n\t\t\t\tfiltered = append(filtered, r)\n\t\t\t} else {\n\t\t\t\tcount++\n\t\t\t}\n\t\t}\n\t\tif len(filtered) == 0 {\n\t\t\tdelete(t.routes, key)\n\t\t} else {\n\t\t\tt.routes[key] = filtered\n\t\t}\n\t}\n\treturn count\n}\n", New: "// AddRoute adds or updates a route in the table.\n// Returns true if the route was added/updated, false if rejected (e.g., loop detected).\nfunc (t *Table) AddRoute(route *Route) bool {\n\tif route == nil || route.Network == nil {\n\t\treturn false\n\t}\n\n\t// Check for routing loops (is our ID in the path?)\n\tif slices.Index(route.Path, t.localID) != -1 {\n\t\treturn false // Loop detected\n\t}\n\n\tkey := route.Network.String()\n\tnow := time.Now()\n\n\tt.mu.Lock()\n\taccepted := t.upsertLocked(key, route, now)\n\tt.mu.Unlock()\n\n\treturn accepted\n}\n\n// upsertLocked stores a copy of route under key, either replacing the entry of\n// the same origin or appending a new one (caller must hold the write lock).\n// Returns false if the stored entry of that origin is newer or at least as good.\nfunc (t *Table) upsertLocked(key string, route *Route, now time.Time) bool {\n\tbucket := t.routes[key]\n\n\t// Find the slot of this origin; default is the append position\n\tslot := len(bucket)\n\tfor i := range bucket {\n\t\tif bucket[i].OriginAgent == route.OriginAgent {\n\t\t\tslot = i\n\t\t\tbreak\n\t\t}\n\t}\n\tisNewOrigin := slot == len(bucket)\n\n\tif !isNewOrigin {\n\t\t// Update only if newer sequence or better metric\n\t\theld := bucket[slot]\n\t\tif route.Sequence < held.Sequence {\n\t\t\treturn false // Older route\n\t\t}\n\t\tif route.Sequence == held.Sequence && held.Metric < route.Metric {\n\t\t\treturn false // Same version, not better\n\t\t}\n\t}\n\n\tstored := route.Clone()\n\tstored.LastUpdate = now\n\tif isNewOrigin {\n\t\tbucket = append(bucket, stored)\n\t} else {\n\t\tbucket[slot] = stored\n\t}\n\tt.routes[key] = bucket\n\n\t// Keep the bucket sorted by metric (lowest first)\n\tsort.Slice(bucket, func(i, j int) bool {\n\t\treturn bucket[i].Metric < bucket[j].Metric\n\t})\n\treturn true\n}\n\n// RemoveRoute removes a route from a specific origin.\nfunc (t *Table) RemoveRoute(network *net.IPNet, originAgent identity.AgentID) bool {\n\tif network == nil {\n\t\treturn false\n\t}\n\n\tkey := network.String()\n\n\tt.mu.Lock()\n\tdefer t.mu.Unlock()\n\n\troutes := t.routes[key]\n\tfor i := range routes {\n\t\tif routes[i].OriginAgent != originAgent {\n\t\t\tcontinue\n\t\t}\n\t\t// Remove this route\n\t\tif routes = slices.Delete(routes, i, i+1); len(routes) == 0 {\n\t\t\tdelete(t.routes, key)\n\t\t} else {\n\t\t\tt.routes[key] = routes\n\t\t}\n\t\treturn true\n\t}\n\treturn false\n}\n\n// RemoveRoutesFromPeer removes all routes learned from a specific peer.\nfunc (t *Table) RemoveRoutesFromPeer(peerID identity.AgentID) int {\n\tt.mu.Lock()\n\tcount := t.pruneLocked(func(r *Route) bool {\n\t\treturn r.NextHop == peerID\n\t})\n\tt.mu.Unlock()\n\n\treturn count\n}\n\n// pruneLocked drops every route for which drop returns true, deletes prefixes\n// that end up without routes and returns the number of dropped routes (caller\n// must hold the write lock). The relative order of the remaining routes of a\n// prefix is preserved.\nfunc (t *Table) pruneLocked(drop func(*Route) bool) int {\n\tdropped := 0\n\tfor key, routes := range t.routes {\n\t\tkept := routes[:0]\n\t\tfor _, r := range routes {\n\t\t\tif drop(r) {\n\t\t\t\tdropped++\n\t\t\t\tcontinue\n\t\t\t}\n\t\t\tkept = append(kept, r)\n\t\t}\n\t\tif len(kept) > 0 {\n\t\t\tt.routes[key] = kept\n\t\t} else {\n\t\t\tdelete(t.routes, key)\n\t\t}\n\t}\n\treturn dropped\n}\n"},
+				{File: tb, Old: "// CleanupStaleRoutes removes routes that haven't been updated within maxAge.\n// Local routes (where OriginAgent == localID) are never removed.\n// Returns the number of routes removed.\nfunc (t *Table) CleanupStaleRoutes(maxAge time.Duration) int {\n\tt.mu.Lock()\n\tdefer t.mu.Unlock()\n\n\tnow := time.Now()\n\tremoved := 0\n\n\tfor key, routes := range t.routes {\n\t\tvar kept []*Route\n\t\tfor _, r := range routes {\n\t\t\t// Never remove local routes\n\t\t\tif r.OriginAgent == t.localID {\n\t\t\t\tkept = append(kept, r)\n\t\t\t\tcontinue\n\t\t\t}\n\n\t\t\t// Keep routes that are still fresh\n\t\t\tif now.Sub(r.LastUpdate) <= maxAge {\n\t\t\t\tkept = append(kept, r)\n\t\t\t} else {\n\t\t\t\tremoved++\n\t\t\t}\n\t\t}\n\n\t\tif len(kept) > 0 {\n\t\t\tt.routes[key] = kept\n\t\t} else {\n\t\t\tdelete(t.routes, key)\n\t\t}\n\t}\n\n\treturn removed\n}\n", New: "// CleanupStaleRoutes removes routes that haven't been updated within maxAge.\n// Local routes (where OriginAgent == localID) are never removed.\n// Returns the number of routes removed.\nfunc (t *Table) CleanupStaleRoutes(maxAge time.Duration) int {\n\tt.mu.Lock()\n\n\tnow := time.Now()\n\tremoved := t.pruneLocked(func(r *Route) bool {\n\t\t// Never remove local routes; keep remote routes that are still fresh\n\t\treturn r.OriginAgent != t.localID && now.Sub(r.LastUpdate) > maxAge\n\t})\n\n\tt.mu.Unlock()\n\n\treturn removed\n}\n"},
+			}},
+			{Name: "round3b: shared prune filter inverted", ExpectRule: "C10.R3", ExpectKey: "Table", Edits: []Edit{
+				{File: tb, Old: "import (\n\t\"fmt\"\n", New: "import (\n\t\"slices\"\n\t\"fmt\"\n"},
+				{File: tb, Old: "// AddRoute adds or updates a route in the table.\n// Returns true if the route was added/updated, false if rejected (e.g., loop detected).\nfunc (t *Table) AddRoute(route *Route) bool {\n\tif route == nil || route.Network == nil {\n\t\treturn false\n\t}\n\n\t// Check for routing loops (is our ID in the path?)\n\tfor _, id := range route.Path {\n\t\tif id == t.localID {\n\t\t\treturn false // Loop detected\n\t\t}\n\t}\n\n\tkey := route.Network.String()\n\tnow := time.Now()\n\n\tt.mu.Lock()\n\tdefer t.mu.Unlock()\n\n\t// Check if we already have a route from this origin\n\texisting := t.routes[key]\n\tfor i, r := range existing {\n\t\tif r.OriginAgent == route.OriginAgent {\n\t\t\t// Update if newer sequence or better metric\n\t\t\tif route.Sequence > r.Sequence ||\n\t\t\t\t(route.Sequence == r.Sequence && route.Metric < r.Metric) {\n\t\t\t\tcloned := route.Clone()\n\t\t\t\tcloned.LastUpdate = now\n\t\t\t\tt.routes[key][i] = cloned\n\t\t\t\tt.sortRoutes(key)\n\t\t\t\treturn true\n\t\t\t}\n\t\t\treturn false // Older/worse route\n\t\t}\n\t}\n\n\t// New route from this origin\n\tcloned := route.Clone()\n\tcloned.LastUpdate = now\n\tt.routes[key] = append(t.routes[key], cloned)\n\tt.sortRoutes(key)\n\treturn true\n}\n\n// sortRoutes sorts routes for a key by metric (lowest first).\nfunc (t *Table) sortRoutes(key string) {\n\troutes := t.routes[key]\n\tsort.Slice(routes, func(i, j int) bool {\n\t\treturn routes[i].Metric < routes[j].Metric\n\t})\n}\n\n// RemoveRoute removes a route from a specific origin.\nfunc (t *Table) RemoveRoute(network *net.IPNet, originAgent identity.AgentID) bool {\n\tif network == nil {\n\t\treturn false\n\t}\n\n\tkey := network.String()\n\n\tt.mu.Lock()\n\tdefer t.mu.Unlock()\n\n\troutes := t.routes[key]\n\tfor i, r := range routes {\n\t\tif r.OriginAgent == originAgent {\n\t\t\t// Remove this route\n\t\t\tt.routes[key] = append(routes[:i], routes[i+1:]...)\n\t\t\tif len(t.routes[key]) == 0 {\n\t\t\t\tdelete(t.routes, key)\n\t\t\t}\n\t\t\treturn true\n\t\t}\n\t}\n\treturn false\n}\n\n// RemoveRoutesFromPeer removes all routes learned from a specific peer.\nfunc (t *Table) RemoveRoutesFromPeer(peerID identity.AgentID) int {\n\tt.mu.Lock()\n\tdefer t.mu.Unlock()\n\n\tcount := 0\n\tfor key, routes := range t.routes {\n\t\tfiltered := routes[:0]\n\t\tfor _, r := range routes {\n\t\t\tif r.NextHop != peerID {\n\t\t\t\tfiltered = append(filtered, r)\n\t\t\t} else {\n\t\t\t\tcount++\n\t\t\t}\n\t\t}\n\t\tif len(filtered) == 0 {\n\t\t\tdelete(t.routes, key)\n\t\t} else {\n\t\t\tt.routes[key] = filtered\n\t\t}\n\t}\n\treturn count\n}\n", New: "// AddRoute adds or updates a route in the table.\n// Returns true if the route was added/updated, false if rejected (e.g., loop detected).\nfunc (t *Table) AddRoute(route *Route) bool {\n\tif route == nil || route.Network == nil {\n\t\treturn false\n\t}\n\n\t// Check for routing loops (is our ID in the path?)\n\tif slices.Index(route.Path, t.localID) != -1 {\n\t\treturn false // Loop detected\n\t}\n\n\tkey := route.Network.String()\n\tnow := time.Now()\n\n\tt.mu.Lock()\n\taccepted := t.upsertLocked(key, route, now)\n\tt.mu.Unlock()\n\n\treturn accepted\n}\n\n// upsertLocked stores a copy of route under key, either replacing the entry of\n// the same origin or appending a new one (caller must hold the write lock).\n// Returns false if the stored entry of that origin is newer or at least as good.\nfunc (t *Table) upsertLocked(key string, route *Route, now time.Time) bool {\n\tbucket := t.routes[key]\n\n\t// Find the slot of this origin; default is the append position\n\tslot := len(bucket)\n\tfor i := range bucket {\n\t\tif bucket[i].OriginAgent == route.OriginAgent {\n\t\t\tslot = i\n\t\t\tbreak\n\t\t}\n\t}\n\tisNewOrigin := slot == len(bucket)\n\n\tif !isNewOrigin {\n\t\t// Update only if newer sequence or better metric\n\t\theld := bucket[slot]\n\t\tif route.Sequence < held.Sequence {\n\t\t\treturn false // Older route\n\t\t}\n\t\tif route.Sequence == held.Sequence && held.Metric <= route.Metric {\n\t\t\treturn false // Same version, not better\n\t\t}\n\t}\n\n\tstored := route.Clone()\n\tstored.LastUpdate = now\n\tif isNewOrigin {\n\t\tbucket = append(bucket, stored)\n\t} else {\n\t\tbucket[slot] = stored\n\t}\n\tt.routes[key] = bucket\n\n\t// Keep the bucket sorted by metric (lowest first)\n\tsort.Slice(bucket, func(i, j int) bool {\n\t\treturn bucket[i].Metric < bucket[j].Metric\n\t})\n\treturn true\n}\n\n// RemoveRoute removes a route from a specific origin.\nfunc (t *Table) RemoveRoute(network *net.IPNet, originAgent identity.AgentID) bool {\n\tif network == nil {\n\t\treturn false\n\t}\n\n\tkey := network.String()\n\n\tt.mu.Lock()\n\tdefer t.mu.Unlock()\n\n\troutes := t.routes[key]\n\tfor i := range routes {\n\t\tif routes[i].OriginAgent != originAgent {\n\t\t\tcontinue\n\t\t}\n\t\t// Remove this route\n\t\tif routes = slices.Delete(routes, i, i+1); len(routes) == 0 {\n\t\t\tdelete(t.routes, key)\n\t\t} else {\n\t\t\tt.routes[key] = routes\n\t\t}\n\t\treturn true\n\t}\n\treturn false\n}\n\n// RemoveRoutesFromPeer removes all routes learned from a specific peer.\nfunc (t *Table) RemoveRoutesFromPeer(peerID identity.AgentID) int {\n\tt.mu.Lock()\n\tcount := t.pruneLocked(func(r *Route) bool {\n\t\treturn r.NextHop == peerID\n\t})\n\tt.mu.Unlock()\n\n\treturn count\n}\n\n// pruneLocked drops every route for which drop returns true, deletes prefixes\n// that end up without routes and returns the number of dropped routes (caller\n// must hold the write lock). The relative order of the remaining routes of a\n// prefix is preserved.\nfunc (t *Table) pruneLocked(drop func(*Route) bool) int {\n\tdropped := 0\n\tfor key, routes := range t.routes {\n\t\tkept := routes[:0]\n\t\tfor _, r := range routes {\n\t\t\tif !drop(r) {\n\t\t\t\tdropped++\n\t\t\t\tcontinue\n\t\t\t}\n\t\t\tkept = append(kept, r)\n\t\t}\n\t\tif len(kept) > 0 {\n\t\t\tt.routes[key] = kept\n\t\t} else {\n\t\t\tdelete(t.routes, key)\n\t\t}\n\t}\n\treturn dropped\n}\n"},
+				{File: tb, Old: "// CleanupStaleRoutes removes routes that haven't been updated within maxAge.\n// Local routes (where OriginAgent == localID) are never removed.\n// Returns the number of routes removed.\nfunc (t *Table) CleanupStaleRoutes(maxAge time.Duration) int {\n\tt.mu.Lock()\n\tdefer t.mu.Unlock()\n\n\tnow := time.Now()\n\tremoved := 0\n\n\tfor key, routes := range t.routes {\n\t\tvar kept []*Route\n\t\tfor _, r := range routes {\n\t\t\t// Never remove local routes\n\t\t\tif r.OriginAgent == t.localID {\n\t\t\t\tkept = append(kept, r)\n\t\t\t\tcontinue\n\t\t\t}\n\n\t\t\t// Keep routes that are still fresh\n\t\t\tif now.Sub(r.LastUpdate) <= maxAge {\n\t\t\t\tkept = append(kept, r)\n\t\t\t} else {\n\t\t\t\tremoved++\n\t\t\t}\n\t\t}\n\n\t\tif len(kept) > 0 {\n\t\t\tt.routes[key] = kept\n\t\t} else {\n\t\t\tdelete(t.routes, key)\n\t\t}\n\t}\n\n\treturn removed\n}\n", New: "// CleanupStaleRoutes removes routes that haven't been updated within maxAge.\n// Local routes (where OriginAgent == localID) are never removed.\n// Returns the number of routes removed.\nfunc (t *Table) CleanupStaleRoutes(maxAge time.Duration) int {\n\tt.mu.Lock()\n\n\tnow := time.Now()\n\tremoved := t.pruneLocked(func(r *Route) bool {\n\t\t// Never remove local routes; keep remote routes that are still fresh\n\t\treturn r.OriginAgent != t.localID && now.Sub(r.LastUpdate) > maxAge\n\t})\n\n\tt.mu.Unlock()\n\n\treturn removed\n}\n"},
+			}},
+			{Name: "round3b: upsertLocked called without the loop check", ExpectRule: "C10.R2", ExpectKey: "Table", Edits: []Edit{
+				{File: tb, Old: "import (\n\t\"fmt\"\n", New: "import (\n\t\"slices\"\n\t\"fmt\"\n"},
+				{File: tb, Old: "// AddRoute adds or updates a route in the table.\n// Returns true if the route was added/updated, false if rejected (e.g., loop detected).\nfunc (t *Table) AddRoute(route *Route) bool {\n\tif route == nil || route.Network == nil {\n\t\treturn false\n\t}\n\n\t// Check for routing loops (is our ID in the path?)\n\tfor _, id := range route.Path {\n\t\tif id == t.localID {\n\t\t\treturn false // Loop detected\n\t\t}\n\t}\n\n\tkey := route.Network.String()\n\tnow := time.Now()\n\n\tt.mu.Lock()\n\tdefer t.mu.Unlock()\n\n\t// Check if we already have a route from this origin\n\texisting := t.routes[key]\n\tfor i, r := range existing {\n\t\tif r.OriginAgent == route.OriginAgent {\n\t\t\t// Update if newer sequence or better metric\n\t\t\tif route.Sequence > r.Sequence ||\n\t\t\t\t(route.Sequence == r.Sequence && route.Metric < r.Metric) {\n\t\t\t\tcloned := route.Clone()\n\t\t\t\tcloned.LastUpdate = now\n\t\t\t\tt.routes[key][i] = cloned\n\t\t\t\tt.sortRoutes(key)\n\t\t\t\treturn true\n\t\t\t}\n\t\t\treturn false // Older/worse route\n\t\t}\n\t}\n\n\t// New route from this origin\n\tcloned := route.Clone()\n\tcloned.LastUpdate = now\n\tt.routes[key] = append(t.routes[key], cloned)\n\tt.sortRoutes(key)\n\treturn true\n}\n\n// sortRoutes sorts routes for a key by metric (lowest first).\nfunc (t *Table) sortRoutes(key string) {\n\troutes := t.routes[key]\n\tsort.Slice(routes, func(i, j int) bool {\n\t\treturn routes[i].Metric < routes[j].Metric\n\t})\n}\n\n// RemoveRoute removes a route from a specific origin.\nfunc (t *Table) RemoveRoute(network *net.IPNet, originAgent identity.AgentID) bool {\n\tif network == nil {\n\t\treturn false\n\t}\n\n\tkey := network.String()\n\n\tt.mu.Lock()\n\tdefer t.mu.Unlock()\n\n\troutes := t.routes[key]\n\tfor i, r := range routes {\n\t\tif r.OriginAgent == originAgent {\n\t\t\t// Remove this route\n\t\t\tt.routes[key] = append(routes[:i], routes[i+1:]...)\n\t\t\tif len(t.routes[key]) == 0 {\n\t\t\t\tdelete(t.routes, key)\n\t\t\t}\n\t\t\treturn true\n\t\t}\n\t}\n\treturn false\n}\n\n// RemoveRoutesFromPeer removes all routes learned from a specific peer.\nfunc (t *Table) RemoveRoutesFromPeer(peerID identity.AgentID) int {\n\tt.mu.Lock()\n\tdefer t.mu.Unlock()\n\n\tcount := 0\n\tfor key, routes := range t.routes {\n\t\tfiltered := routes[:0]\n\t\tfor _, r := range routes {\n\t\t\tif r.NextHop != peerID {\n\t\t\t\tfiltered = append(filtered, r)\n\t\t\t} else {\n\t\t\t\tcount++\n\t\t\t}\n\t\t}\n\t\tif len(filtered) == 0 {\n\t\t\tdelete(t.routes, key)\n\t\t} else {\n\t\t\tt.routes[key] = filtered\n\t\t}\n\t}\n\treturn count\n}\n", New: "// AddRoute adds or updates a route in the table.\n// Returns true if the route was added/updated, false if rejected (e.g., loop detected).\nfunc (t *Table) AddRoute(route *Route) bool {\n\tif route == nil || route.Network == nil {\n\t\treturn false\n\t}\n\n\t// Check for routing loops (is our ID in the path?)\n\t_ = slices.Index(route.Path, t.localID)\n\n\tkey := route.Network.String()\n\tnow := time.Now()\n\n\tt.mu.Lock()\n\taccepted := t.upsertLocked(key, route, now)\n\tt.mu.Unlock()\n\n\treturn accepted\n}\n\n// upsertLocked stores a copy of route under key, either replacing the entry of\n// the same origin or appending a new one (caller must hold the write lock).\n// Returns false if the stored entry of that origin is newer or at least as good.\nfunc (t *Table) upsertLocked(key string, route *Route, now time.Time) bool {\n\tbucket := t.routes[key]\n\n\t// Find the slot of this origin; default is the append position\n\tslot := len(bucket)\n\tfor i := range bucket {\n\t\tif bucket[i].OriginAgent == route.OriginAgent {\n\t\t\tslot = i\n\t\t\tbreak\n\t\t}\n\t}\n\tisNewOrigin := slot == len(bucket)\n\n\tif !isNewOrigin {\n\t\t// Update only if newer sequence or better metric\n\t\theld := bucket[slot]\n\t\tif route.Sequence < held.Sequence {\n\t\t\treturn false // Older route\n\t\t}\n\t\tif route.Sequence == held.Sequence && held.Metric <= route.Metric {\n\t\t\treturn false // Same version, not better\n\t\t}\n\t}\n\n\tstored := route.Clone()\n\tstored.LastUpdate = now\n\tif isNewOrigin {\n\t\tbucket = append(bucket, stored)\n\t} else {\n\t\tbucket[slot] = stored\n\t}\n\tt.routes[key] = bucket\n\n\t// Keep the bucket sorted by metric (lowest first)\n\tsort.Slice(bucket, func(i, j int) bool {\n\t\treturn bucket[i].Metric < bucket[j].Metric\n\t})\n\treturn true\n}\n\n// RemoveRoute removes a route from a specific origin.\nfunc (t *Table) RemoveRoute(network *net.IPNet, originAgent identity.AgentID) bool {\n\tif network == nil {\n\t\treturn false\n\t}\n\n\tkey := network.String()\n\n\tt.mu.Lock()\n\tdefer t.mu.Unlock()\n\n\troutes := t.routes[key]\n\tfor i := range routes {\n\t\tif routes[i].OriginAgent != originAgent {\n\t\t\tcontinue\n\t\t}\n\t\t// Remove this route\n\t\tif routes = slices.Delete(routes, i, i+1); len(routes) == 0 {\n\t\t\tdelete(t.routes, key)\n\t\t} else {\n\t\t\tt.routes[key] = routes\n\t\t}\n\t\treturn true\n\t}\n\treturn false\n}\n\n// RemoveRoutesFromPeer removes all routes learned from a specific peer.\nfunc (t *Table) RemoveRoutesFromPeer(peerID identity.AgentID) int {\n\tt.mu.Lock()\n\tcount := t.pruneLocked(func(r *Route) bool {\n\t\treturn r.NextHop == peerID\n\t})\n\tt.mu.Unlock()\n\n\treturn count\n}\n\n// pruneLocked drops every route for which drop returns true, deletes prefixes\n// that end up without routes and returns the number of dropped routes (caller\n// must hold the write lock). The relative order of the remaining routes of a\n// prefix is preserved.\nfunc (t *Table) pruneLocked(drop func(*Route) bool) int {\n\tdropped := 0\n\tfor key, routes := range t.routes {\n\t\tkept := routes[:0]\n\t\tfor _, r := range routes {\n\t\t\tif drop(r) {\n\t\t\t\tdropped++\n\t\t\t\tcontinue\n\t\t\t}\n\t\t\tkept = append(kept, r)\n\t\t}\n\t\tif len(kept) > 0 {\n\t\t\tt.routes[key] = kept\n\t\t} else {\n\t\t\tdelete(t.routes, key)\n\t\t}\n\t}\n\treturn dropped\n}\n"},
+				{File: tb, Old: "// CleanupStaleRoutes removes routes that haven't been updated within maxAge.\n// Local routes (where OriginAgent == localID) are never removed.\n// Returns the number of routes removed.\nfunc (t *Table) CleanupStaleRoutes(maxAge time.Duration) int {\n\tt.mu.Lock()\n\tdefer t.mu.Unlock()\n\n\tnow := time.Now()\n\tremoved := 0\n\n\tfor key, routes := range t.routes {\n\t\tvar kept []*Route\n\t\tfor _, r := range routes {\n\t\t\t// Never remove local routes\n\t\t\tif r.OriginAgent == t.localID {\n\t\t\t\tkept = append(kept, r)\n\t\t\t\tcontinue\n\t\t\t}\n\n\t\t\t// Keep routes that are still fresh\n\t\t\tif now.Sub(r.LastUpdate) <= maxAge {\n\t\t\t\tkept = append(kept, r)\n\t\t\t} else {\n\t\t\t\tremoved++\n\t\t\t}\n\t\t}\n\n\t\tif len(kept) > 0 {\n\t\t\tt.routes[key] = kept\n\t\t} else {\n\t\t\tdelete(t.routes, key)\n\t\t}\n\t}\n\n\treturn removed\n}\n", New: "// CleanupStaleRoutes removes routes that haven't been updated within maxAge.\n// Local routes (where OriginAgent == localID) are never removed.\n// Returns the number of routes removed.\nfunc (t *Table) CleanupStaleRoutes(maxAge time.Duration) int {\n\tt.mu.Lock()\n\n\tnow := time.Now()\n\tremoved := t.pruneLocked(func(r *Route) bool {\n\t\t// Never remove local routes; keep remote routes that are still fresh\n\t\treturn r.OriginAgent != t.localID && now.Sub(r.LastUpdate) > maxAge\n\t})\n\n\tt.mu.Unlock()\n\n\treturn removed\n}\n"},
+			}},
+			{Name: "round3b rewrite: originIndex / sortByMetric / pathHasLoop helpers, isNewer/isCheaper locals (C08/b shape)", Edits: []Edit{
+				{File: tb, Old: "import (\n\t\"fmt\"\n", New: "import (\n\t\"slices\"\n\t\"fmt\"\n"},
+				{File: tb, Old: "// AddRoute adds or updates a route in the table.\n// Returns true if the route was added/updated, false if rejected (e.g., loop detected).\nfunc (t *Table) AddRoute(route *Route) bool {\n\tif route == nil || route.Network == nil {\n\t\treturn false\n\t}\n\n\t// Check for routing loops (is our ID in the path?)\n\tfor _, id := range route.Path {\n\t\tif id == t.localID {\n\t\t\treturn false // Loop detected\n\t\t}\n\t}\n\n\tkey := route.Network.String()\n\tnow := time.Now()\n\n\tt.mu.Lock()\n\tdefer t.mu.Unlock()\n\n\t// Check if we already have a route from this origin\n\texisting := t.routes[key]\n\tfor i, r := range existing {\n\t\tif r.OriginAgent == route.OriginAgent {\n\t\t\t// Update if newer sequence or better metric\n\t\t\tif route.Sequence > r.Sequence ||\n\t\t\t\t(route.Sequence == r.Sequence && route.Metric < r.Metric) {\n\t\t\t\tcloned := route.Clone()\n\t\t\t\tcloned.LastUpdate = now\n\t\t\t\tt.routes[key][i] = cloned\n\t\t\t\tt.sortRoutes(key)\n\t\t\t\treturn true\n\t\t\t}\n\t\t\treturn false // Older/worse route\n\t\t}\n\t}\n\n\t// New route from this origin\n\tcloned := route.Clone()\n\tcloned.LastUpdate = now\n\tt.routes[key] = append(t.routes[key], cloned)\n\tt.sortRoutes(key)\n\treturn true\n}\n\n// sortRoutes sorts routes for a key by metric (lowest first).\nfunc (t *Table) sortRoutes(key string) {\n\troutes := t.routes[key]\n\tsort.Slice(routes, func(i, j int) bool {\n\t\treturn routes[i].Metric < routes[j].Metric\n\t})\n}\n\n// RemoveRoute removes a route from a specific origin.\nfunc (t *Table) RemoveRoute(network *net.IPNet, originAgent identity.AgentID) bool {\n\tif network == nil {\n\t\treturn false\n\t}\n\n\tkey := network.String()\n\n\tt.mu.Lock()\n\tdefer t.mu.Unlock()\n\n\troutes := t.routes[key]\n\tfor i, r := range routes {\n\t\tif r.OriginAgent == originAgent {\n\t\t\t// Remove this route\n\t\t\tt.routes[key] = append(routes[:i], routes[i+1:]...)\n\t\t\tif len(t.routes[key]) == 0 {\n\t\t\t\tdelete(t.routes, key)\n\t\t\t}\n\t\t\treturn true\n\t\t}\n\t}\n\treturn false\n}\n\n// RemoveRoutesFromPeer removes all routes learned from a specific peer.\nfunc (t *Table) RemoveRoutesFromPeer(peerID identity.AgentID) int {\n\tt.mu.Lock()\n\tdefer t.mu.Unlock()\n\n\tcount := 0\n\tfor key, routes := range t.routes {\n\t\tfiltered := routes[:0]\n\t\tfor _, r := range routes {\n\t\t\tif r.NextHop != peerID {\n\t\t\t\tfiltered = append(filtered, r)\n\t\t\t} else {\n\t\t\t\tcount++\n\t\t\t}\n\t\t}\n\t\tif len(filtered) == 0 {\n\t\t\tdelete(t.routes, key)\n\t\t} else {\n\t\t\tt.routes[key] = filtered\n\t\t}\n\t}\n\treturn count\n}\n", New: "// AddRoute adds or updates a route in the table.\n// Returns true if the route was added/updated, false if rejected (e.g., loop detected).\nfunc (t *Table) AddRoute(route *Route) bool {\n\tif route == nil || route.Network == nil {\n\t\treturn false\n\t}\n\n\tif t.pathHasLoop(route.Path) {\n\t\treturn false // Loop detected\n\t}\n\n\tnow := time.Now()\n\tkey := route.Network.String()\n\n\tt.mu.Lock()\n\tdefer t.mu.Unlock()\n\n\t// Check if we already have a route from this origin\n\tidx := originIndex(t.routes[key], route.OriginAgent)\n\tif idx < 0 {\n\t\t// New route from this origin\n\t\tcloned := route.Clone()\n\t\tcloned.LastUpdate = now\n\t\tt.routes[key] = append(t.routes[key], cloned)\n\t\tsortByMetric(t.routes[key])\n\t\treturn true\n\t}\n\n\t// Update if newer sequence or better metric\n\tprev := t.routes[key][idx]\n\tisNewer := route.Sequence > prev.Sequence\n\tisCheaper := route.Sequence == prev.Sequence && route.Metric < prev.Metric\n\tif !isNewer && !isCheaper {\n\t\treturn false // Older/worse route\n\t}\n\n\tcloned := route.Clone()\n\tcloned.LastUpdate = now\n\tt.routes[key][idx] = cloned\n\tsortByMetric(t.routes[key])\n\treturn true\n}\n\n// pathHasLoop reports whether our own ID already appears in an advertised path.\nfunc (t *Table) pathHasLoop(path []identity.AgentID) bool {\n\tfor _, hop := range path {\n\t\tif hop == t.localID {\n\t\t\treturn true\n\t\t}\n\t}\n\treturn false\n}\n\n// originIndex returns the position of the first route advertised by origin,\n// or -1 if origin has no route in the given slice.\nfunc originIndex(routes []*Route, origin identity.AgentID) int {\n\treturn slices.IndexFunc(routes, func(r *Route) bool {\n\t\treturn r.OriginAgent == origin\n\t})\n}\n\n// sortByMetric sorts routes of one prefix by metric (lowest first).\nfunc sortByMetric(routes []*Route) {\n\tsort.Slice(routes, func(i, j int) bool {\n\t\treturn routes[i].Metric < routes[j].Metric\n\t})\n}\n\n// RemoveRoute removes a route from a specific origin.\nfunc (t *Table) RemoveRoute(network *net.IPNet, originAgent identity.AgentID) bool {\n\tif network == nil {\n\t\treturn false\n\t}\n\n\tkey := network.String()\n\n\tt.mu.Lock()\n\tdefer t.mu.Unlock()\n\n\troutes := t.routes[key]\n\tidx := originIndex(routes, originAgent)\n\tif idx < 0 {\n\t\treturn false\n\t}\n\n\t// Remove this route\n\tt.routes[key] = append(routes[:idx], routes[idx+1:]...)\n\tif len(t.routes[key]) == 0 {\n\t\tdelete(t.routes, key)\n\t}\n\treturn true\n}\n\n// RemoveRoutesFromPeer removes all routes learned from a specific peer.\nfunc (t *Table) RemoveRoutesFromPeer(peerID identity.AgentID) int {\n\tt.mu.Lock()\n\tdefer t.mu.Unlock()\n\n\tcount := 0\n\tfor key, routes := range t.routes {\n\t\tfiltered := routes[:0]\n\t\tfor _, r := range routes {\n\t\t\tif r.NextHop != peerID {\n\t\t\t\tfiltered = append(filtered, r)\n\t\t\t} else {\n\t\t\t\tcount++\n\t\t\t}\n\t\t}\n\t\tif len(filtered) == 0 {\n\t\t\tdelete(t.routes, key)\n\t\t} else {\n\t\t\tt.routes[key] = filtered\n\t\t}\n\t}\n\treturn count\n}\n"},
+			}},
+			{Name: "round3b rewrite: generic retain helpers, IndexFunc + slices.Delete, supersedes and pathHasLoop helpers (C10/a shape)", Edits: []Edit{
+				{File: ag, Old: "import (\n\t\"fmt\"\n", New: "import (\n\t\"slices\"\n\t\"fmt\"\n"},
+				{File: ag, Old: "// AddRoute adds or updates an agent presence route in the table.\n// Returns true if the route was added/updated, false if rejected (e.g., loop detected).\nfunc (t *AgentTable) AddRoute(route *AgentRoute) bool {\n\tif route == nil {\n\t\treturn false\n\t}\n\n\t// Check for routing loops (is our ID in the path?)\n\tfor _, id := range route.Path {\n\t\tif id == t.localID {\n\t\t\treturn false // Loop detected\n\t\t}\n\t}\n\n\tt.mu.Lock()\n\tdefer t.mu.Unlock()\n\n\tkey := route.AgentID\n\n\t// Check if we already have a route from this origin via this next hop\n\tfor i, r := range t.routes[key] {\n\t\tif r.OriginAgent == route.OriginAgent && r.NextHop == route.NextHop {\n\t\t\t// Update if newer sequence or better metric\n\t\t\tif route.Sequence > r.Sequence ||\n\t\t\t\t(route.Sequence == r.Sequence && route.Metric < r.Metric) {\n\t\t\t\tcloned := route.Clone()\n\t\t\t\tcloned.LastUpdate = time.Now()\n\t\t\t\tt.routes[key][i] = cloned\n\t\t\t\tt.sortRoutes(key)\n\t\t\t\treturn true\n\t\t\t}\n\t\t\treturn false // Older/worse route\n\t\t}\n\t}\n\n\t// New route from this origin/nexthop\n\tcloned := route.Clone()\n\tcloned.LastUpdate = time.Now()\n\tt.routes[key] = append(t.routes[key], cloned)\n\tt.sortRoutes(key)\n\treturn true\n}\n\n// sortRoutes sorts routes for an agent by metric (lowest first).\nfunc (t *AgentTable) sortRoutes(key identity.AgentID) {\n\troutes := t.routes[key]\n\tsort.Slice(routes, func(i, j int) bool {\n\t\treturn routes[i].Metric < routes[j].Metric\n\t})\n}\n\n// RemoveRoute removes an agent presence route from a specific origin.\nfunc (t *AgentTable) RemoveRoute(agentID, originAgent identity.AgentID) bool {\n\tt.mu.Lock()\n\tdefer t.mu.Unlock()\n\n\troutes := t.routes[agentID]\n\tfor i, r := range routes {\n\t\tif r.OriginAgent == originAgent {\n\t\t\tt.routes[agentID] = append(routes[:i], routes[i+1:]...)\n\t\t\tif len(t.routes[agentID]) == 0 {\n\t\t\t\tdelete(t.routes, agentID)\n\t\t\t}\n\t\t\treturn true\n\t\t}\n\t}\n\treturn false\n}\n\n// RemoveRoutesFromPeer removes all agent routes learned from a specific peer.\nfunc (t *AgentTable) RemoveRoutesFromPeer(peerID identity.AgentID) int {\n\tt.mu.Lock()\n\tdefer t.mu.Unlock()\n\n\tcount := 0\n\tfor agentID, routes := range t.routes {\n\t\tfiltered := routes[:0]\n\t\tfor _, r := range routes {\n\t\t\tif r.NextHop != peerID {\n\t\t\t\tfiltered = append(filtered, r)\n\t\t\t} else {\n\t\t\t\tcount++\n\t\t\t}\n\t\t}\n\t\tif len(filtered) == 0 {\n\t\t\tdelete(t.routes, agentID)\n\t\t} else {\n\t\t\tt.routes[agentID] = filtered\n\t\t}\n\t}\n\treturn count\n}\n", New: "// AddRoute adds or updates an agent presence route in the table.\n// Returns true if the route was added/updated, false if rejected (e.g., loop detected).\nfunc (t *AgentTable) AddRoute(route *AgentRoute) bool {\n\tif route == nil {\n\t\treturn false\n\t}\n\n\t// Check for routing loops (is our ID in the path?)\n\tif pathHasLoop(route.Path, t.localID) {\n\t\treturn false\n\t}\n\n\tt.mu.Lock()\n\tdefer t.mu.Unlock()\n\n\tkey := route.AgentID\n\n\t// Check if we already have a route from this origin via this next hop\n\tbucket := t.routes[key]\n\tidx := slices.IndexFunc(bucket, func(r *AgentRoute) bool {\n\t\treturn r.OriginAgent == route.OriginAgent && r.NextHop == route.NextHop\n\t})\n\tif idx >= 0 {\n\t\t// Update only if newer sequence or better metric\n\t\tstored := bucket[idx]\n\t\tif !supersedes(route.Sequence, route.Metric, stored.Sequence, stored.Metric) {\n\t\t\treturn false // Older/worse route\n\t\t}\n\t}\n\n\tcloned := route.Clone()\n\tcloned.LastUpdate = time.Now()\n\tif idx >= 0 {\n\t\tbucket[idx] = cloned\n\t} else {\n\t\t// New route from this origin/nexthop\n\t\tt.routes[key] = append(bucket, cloned)\n\t}\n\tt.sortRoutes(key)\n\treturn true\n}\n\n// sortRoutes sorts routes for an agent by metric (lowest first).\nfunc (t *AgentTable) sortRoutes(key identity.AgentID) {\n\troutes := t.routes[key]\n\tsort.Slice(routes, func(i, j int) bool {\n\t\treturn routes[i].Metric < routes[j].Metric\n\t})\n}\n\n// RemoveRoute removes an agent presence route from a specific origin.\nfunc (t *AgentTable) RemoveRoute(agentID, originAgent identity.AgentID) bool {\n\tt.mu.Lock()\n\tdefer t.mu.Unlock()\n\n\tbucket := t.routes[agentID]\n\tidx := slices.IndexFunc(bucket, func(r *AgentRoute) bool {\n\t\treturn r.OriginAgent == originAgent\n\t})\n\tif idx < 0 {\n\t\treturn false\n\t}\n\n\tbucket = slices.Delete(bucket, idx, idx+1)\n\tif len(bucket) == 0 {\n\t\tdelete(t.routes, agentID)\n\t} else {\n\t\tt.routes[agentID] = bucket\n\t}\n\treturn true\n}\n\n// RemoveRoutesFromPeer removes all agent routes learned from a specific peer.\nfunc (t *AgentTable) RemoveRoutesFromPeer(peerID identity.AgentID) int {\n\tt.mu.Lock()\n\tdefer t.mu.Unlock()\n\n\tnotViaPeer := func(r *AgentRoute) bool { return r.NextHop != peerID }\n\n\tcount := 0\n\tfor agentID, routes := range t.routes {\n\t\tremaining, dropped := retainInPlace(routes, notViaPeer)\n\t\tcount += dropped\n\t\tif len(remaining) == 0 {\n\t\t\tdelete(t.routes, agentID)\n\t\t} else {\n\t\t\tt.routes[agentID] = remaining\n\t\t}\n\t}\n\treturn count\n}\n\n// pathHasLoop reports whether the local agent already appears in an\n// advertised path, i.e. accepting the route would create a routing loop.\nfunc pathHasLoop(path []identity.AgentID, localID identity.AgentID) bool {\n\treturn slices.Contains(path, localID)\n}\n\n// supersedes reports whether an advertisement carrying (newSeq, newMetric)\n// replaces a stored entry carrying (oldSeq, oldMetric): a newer sequence always\n// wins, the same sequence wins only with a strictly better metric.\nfunc supersedes(newSeq uint64, newMetric uint16, oldSeq uint64, oldMetric uint16) bool {\n\tif newSeq != oldSeq {\n\t\treturn newSeq > oldSeq\n\t}\n\treturn newMetric < oldMetric\n}\n\n// retainInPlace keeps the entries for which keep returns true, reusing the\n// backing array of routes. It returns the kept entries and how many were dropped.\nfunc retainInPlace[R any](routes []R, keep func(R) bool) ([]R, int) {\n\tkept := routes[:0]\n\tdropped := 0\n\tfor _, r := range routes {\n\t\tif keep(r) {\n\t\t\tkept = append(kept, r)\n\t\t} else {\n\t\t\tdropped++\n\t\t}\n\t}\n\treturn kept, dropped\n}\n\n// retainCopy keeps the entries for which keep returns true in a freshly\n// allocated slice (nil when nothing is kept), leaving routes untouched.\n// It returns the kept entries and how many were dropped.\nfunc retainCopy[R any](routes []R, keep func(R) bool) ([]R, int) {\n\tvar kept []R\n\tdropped := 0\n\tfor _, r := range routes {\n\t\tif keep(r) {\n\t\t\tkept = append(kept, r)\n\t\t} else {\n\t\t\tdropped++\n\t\t}\n\t}\n\treturn kept, dropped\n}\n"},
+				{File: ag, Old: "// CleanupStaleRoutes removes agent routes that haven't been updated within maxAge.\n// Local routes (where OriginAgent == localID) are never removed.\n// Returns the number of routes removed.\nfunc (t *AgentTable) CleanupStaleRoutes(maxAge time.Duration) int {\n\tt.mu.Lock()\n\tdefer t.mu.Unlock()\n\n\tnow := time.Now()\n\tremoved := 0\n\n\tfor agentID, routes := range t.routes {\n\t\tvar kept []*AgentRoute\n\t\tfor _, r := range routes {\n\t\t\tif r.OriginAgent == t.localID || now.Sub(r.LastUpdate) <= maxAge {\n\t\t\t\tkept = append(kept, r)\n\t\t\t} else {\n\t\t\t\tremoved++\n\t\t\t}\n\t\t}\n\t\tif len(kept) > 0 {\n\t\t\tt.routes[agentID] = kept\n\t\t} else {\n\t\t\tdelete(t.routes, agentID)\n\t\t}\n\t}\n\treturn removed\n}\n", New: "// CleanupStaleRoutes removes agent routes that haven't been updated within maxAge.\n// Local routes (where OriginAgent == localID) are never removed.\n// Returns the number of routes removed.\nfunc (t *AgentTable) CleanupStaleRoutes(maxAge time.Duration) int {\n\tt.mu.Lock()\n\tdefer t.mu.Unlock()\n\n\tnow := time.Now()\n\tlocalOrFresh := func(r *AgentRoute) bool {\n\t\treturn r.OriginAgent == t.localID || now.Sub(r.LastUpdate) <= maxAge\n\t}\n\n\tremoved := 0\n\tfor agentID, routes := range t.routes {\n\t\tkept, dropped := retainCopy(routes, localOrFresh)\n\t\tremoved += dropped\n\t\tif len(kept) > 0 {\n\t\t\tt.routes[agentID] = kept\n\t\t} else {\n\t\t\tdelete(t.routes, agentID)\n\t\t}\n\t}\n\treturn removed\n}\n"},
+			}},
+			{Name: "round3b: generic retain helper keeps what it should drop", ExpectRule: "C10.R3", ExpectKey: "AgentTable", Edits: []Edit{
+				{File: ag, Old: "import (\n\t\"fmt\"\n", New: "import (\n\t\"slices\"\n\t\"fmt\"\n"},
+				{File: ag, Old: "// AddRoute adds or updates an agent presence route in the table.\n// Returns true if the route was added/updated, false if rejected (e.g., loop detected).\nfunc (t *AgentTable) AddRoute(route *AgentRoute) bool {\n\tif route == nil {\n\t\treturn false\n\t}\n\n\t// Check for routing loops (is our ID in the path?)\n\tfor _, id := range route.Path {\n\t\tif id == t.localID {\n\t\t\treturn false // Loop detected\n\t\t}\n\t}\n\n\tt.mu.Lock()\n\tdefer t.mu.Unlock()\n\n\tkey := route.AgentID\n\n\t// Check if we already have a route from this origin via this next hop\n\tfor i, r := range t.routes[key] {\n\t\tif r.OriginAgent == route.OriginAgent && r.NextHop == route.NextHop {\n\t\t\t// Update if newer sequence or better metric\n\t\t\tif route.Sequence > r.Sequence ||\n\t\t\t\t(route.Sequence == r.Sequence && route.Metric < r.Metric) {\n\t\t\t\tcloned := route.Clone()\n\t\t\t\tcloned.LastUpdate = time.Now()\n\t\t\t\tt.routes[key][i] = cloned\n\t\t\t\tt.sortRoutes(key)\n\t\t\t\treturn true\n\t\t\t}\n\t\t\treturn false // Older/worse route\n\t\t}\n\t}\n\n\t// New route from this origin/nexthop\n\tcloned := route.Clone()\n\tcloned.LastUpdate = time.Now()\n\tt.routes[key] = append(t.routes[key], cloned)\n\tt.sortRoutes(key)\n\treturn true\n}\n\n// sortRoutes sorts routes for an agent by metric (lowest first).\nfunc (t *AgentTable) sortRoutes(key identity.AgentID) {\n\troutes := t.routes[key]\n\tsort.Slice(routes, func(i, j int) bool {\n\t\treturn routes[i].Metric < routes[j].Metric\n\t})\n}\n\n// RemoveRoute removes an agent presence route from a specific origin.\nfunc (t *AgentTable) RemoveRoute(agentID, originAgent identity.AgentID) bool {\n\tt.mu.Lock()\n\tdefer t.mu.Unlock()\n\n\troutes := t.routes[agentID]\n\tfor i, r := range routes {\n\t\tif r.OriginAgent == originAgent {\n\t\t\tt.routes[agentID] = append(routes[:i], routes[i+1:]...)\n\t\t\tif len(t.routes[agentID]) == 0 {\n\t\t\t\tdelete(t.routes, agentID)\n\t\t\t}\n\t\t\treturn true\n\t\t}\n\t}\n\treturn false\n}\n\n// RemoveRoutesFromPeer removes all agent routes learned from a specific peer.\nfunc (t *AgentTable) RemoveRoutesFromPeer(peerID identity.AgentID) int {\n\tt.mu.Lock()\n\tdefer t.mu.Unlock()\n\n\tcount := 0\n\tfor agentID, routes := range t.routes {\n\t\tfiltered := routes[:0]\n\t\tfor _, r := range routes {\n\t\t\tif r.NextHop != peerID {\n\t\t\t\tfiltered = append(filtered, r)\n\t\t\t} else {\n\t\t\t\tcount++\n\t\t\t}\n\t\t}\n\t\tif len(filtered) == 0 {\n\t\t\tdelete(t.routes, agentID)\n\t\t} else {\n\t\t\tt.routes[agentID] = filtered\n\t\t}\n\t}\n\treturn count\n}\n", New: "// AddRoute adds or updates an agent presence route in the table.\n// Returns true if the route was added/updated, false if rejected (e.g., loop detected).\nfunc (t *AgentTable) AddRoute(route *AgentRoute) bool {\n\tif route == nil {\n\t\treturn false\n\t}\n\n\t// Check for routing loops (is our ID in the path?)\n\tif pathHasLoop(route.Path, t.localID) {\n\t\treturn false\n\t}\n\n\tt.mu.Lock()\n\tdefer t.mu.Unlock()\n\n\tkey := route.AgentID\n\n\t// Check if we already have a route from this origin via this next hop\n\tbucket := t.routes[key]\n\tidx := slices.IndexFunc(bucket, func(r *AgentRoute) bool {\n\t\treturn r.OriginAgent == route.OriginAgent && r.NextHop == route.NextHop\n\t})\n\tif idx >= 0 {\n\t\t// Update only if newer sequence or better metric\n\t\tstored := bucket[idx]\n\t\tif !supersedes(route.Sequence, route.Metric, stored.Sequence, stored.Metric) {\n\t\t\treturn false // Older/worse route\n\t\t}\n\t}\n\n\tcloned := route.Clone()\n\tcloned.LastUpdate = time.Now()\n\tif idx >= 0 {\n\t\tbucket[idx] = cloned\n\t} else {\n\t\t// New route from this origin/nexthop\n\t\tt.routes[key] = append(bucket, cloned)\n\t}\n\tt.sortRoutes(key)\n\treturn true\n}\n\n// sortRoutes sorts routes for an agent by metric (lowest first).\nfunc (t *AgentTable) sortRoutes(key identity.AgentID) {\n\troutes := t.routes[key]\n\tsort.Slice(routes, func(i, j int) bool {\n\t\treturn routes[i].Metric < routes[j].Metric\n\t})\n}\n\n// RemoveRoute removes an agent presence route from a specific origin.\nfunc (t *AgentTable) RemoveRoute(agentID, originAgent identity.AgentID) bool {\n\tt.mu.Lock()\n\tdefer t.mu.Unlock()\n\n\tbucket := t.routes[agentID]\n\tidx := slices.IndexFunc(bucket, func(r *AgentRoute) bool {\n\t\treturn r.OriginAgent == originAgent\n\t})\n\tif idx < 0 {\n\t\treturn false\n\t}\n\n\tbucket = slices.Delete(bucket, idx, idx+1)\n\tif len(bucket) == 0 {\n\t\tdelete(t.routes, agentID)\n\t} else {\n\t\tt.routes[agentID] = bucket\n\t}\n\treturn true\n}\n\n// RemoveRoutesFromPeer removes all agent routes learned from a specific peer.\nfunc (t *AgentTable) RemoveRoutesFromPeer(peerID identity.AgentID) int {\n\tt.mu.Lock()\n\tdefer t.mu.Unlock()\n\n\tnotViaPeer := func(r *AgentRoute) bool { return r.NextHop != peerID }\n\n\tcount := 0\n\tfor agentID, routes := range t.routes {\n\t\tremaining, dropped := retainInPlace(routes, notViaPeer)\n\t\tcount += dropped\n\t\tif len(remaining) == 0 {\n\t\t\tdelete(t.routes, agentID)\n\t\t} else {\n\t\t\tt.routes[agentID] = remaining\n\t\t}\n\t}\n\treturn count\n}\n\n// pathHasLoop reports whether the local agent already appears in an\n// advertised path, i.e. accepting the route would create a routing loop.\nfunc pathHasLoop(path []identity.AgentID, localID identity.AgentID) bool {\n\treturn slices.Contains(path, localID)\n}\n\n// supersedes reports whether an advertisement carrying (newSeq, newMetric)\n// replaces a stored entry carrying (oldSeq, oldMetric): a newer sequence always\n// wins, the same sequence wins only with a strictly better metric.\nfunc supersedes(newSeq uint64, newMetric uint16, oldSeq uint64, oldMetric uint16) bool {\n\tif newSeq != oldSeq {\n\t\treturn newSeq > oldSeq\n\t}\n\treturn newMetric < oldMetric\n}\n\n// retainInPlace keeps the entries for which keep returns true, reusing the\n// backing array of routes. It returns the kept entries and how many were dropped.\nfunc retainInPlace[R any](routes []R, keep func(R) bool) ([]R, int) {\n\tkept := routes[:0]\n\tdropped := 0\n\tfor _, r := range routes {\n\t\tif !keep(r) {\n\t\t\tkept = append(kept, r)\n\t\t} else {\n\t\t\tdropped++\n\t\t}\n\t}\n\treturn kept, dropped\n}\n\n// retainCopy keeps the entries for which keep returns true in a freshly\n// allocated slice (nil when nothing is kept), leaving routes untouched.\n// It returns the kept entries and how many were dropped.\nfunc retainCopy[R any](routes []R, keep func(R) bool) ([]R, int) {\n\tvar kept []R\n\tdropped := 0\n\tfor _, r := range routes {\n\t\tif keep(r) {\n\t\t\tkept = append(kept, r)\n\t\t} else {\n\t\t\tdropped++\n\t\t}\n\t}\n\treturn kept, dropped\n}\n"},
+				{File: ag, Old: "// CleanupStaleRoutes removes agent routes that haven't been updated within maxAge.\n// Local routes (where OriginAgent == localID) are never removed.\n// Returns the number of routes removed.\nfunc (t *AgentTable) CleanupStaleRoutes(maxAge time.Duration) int {\n\tt.mu.Lock()\n\tdefer t.mu.Unlock()\n\n\tnow := time.Now()\n\tremoved := 0\n\n\tfor agentID, routes := range t.routes {\n\t\tvar kept []*AgentRoute\n\t\tfor _, r := range routes {\n\t\t\tif r.OriginAgent == t.localID || now.Sub(r.LastUpdate) <= maxAge {\n\t\t\t\tkept = append(kept, r)\n\t\t\t} else {\n\t\t\t\tremoved++\n\t\t\t}\n\t\t}\n\t\tif len(kept) > 0 {\n\t\t\tt.routes[agentID] = kept\n\t\t} else {\n\t\t\tdelete(t.routes, agentID)\n\t\t}\n\t}\n\treturn removed\n}\n", New: "// CleanupStaleRoutes removes agent routes that haven't been updated within maxAge.\n// Local routes (where OriginAgent == localID) are never removed.\n// Returns the number of routes removed.\nfunc (t *AgentTable) CleanupStaleRoutes(maxAge time.Duration) int {\n\tt.mu.Lock()\n\tdefer t.mu.Unlock()\n\n\tnow := time.Now()\n\tlocalOrFresh := func(r *AgentRoute) bool {\n\t\treturn r.OriginAgent == t.localID || now.Sub(r.LastUpdate) <= maxAge\n\t}\n\n\tremoved := 0\n\tfor agentID, routes := range t.routes {\n\t\tkept, dropped := retainCopy(routes, localOrFresh)\n\t\tremoved += dropped\n\t\tif len(kept) > 0 {\n\t\t\tt.routes[agentID] = kept\n\t\t} else {\n\t\t\tdelete(t.routes, agentID)\n\t\t}\n\t}\n\treturn removed\n}\n"},
+			}},
 			// rewrites
 			{Name: "rewrite: operands swapped, !(a<=b), nested ifs", Edits: []Edit{
 				{File: tb, Old: upd, New: "\t\t\tif !(route.Sequence <= r.Sequence) ||\n\t\t\t\t(r.Sequence == route.Sequence && r.Metric > route.Metric) {\n"},
@@ -221,6 +255,51 @@ func runC10(p *kit.Program, r *kit.Report) {
 		return
 	}
 	r.Count("functions_analysed", len(m.funcs))
+	// bounded model of the tables (shape-independent): obligations of its own, and second
+	// opinion on what the structural rules do not recognise
+	sem := m.sem()
+	for _, t := range m.tables {
+		sem.report(r, "C10.R1", "update", "a stored entry is replaced iff the sequence is newer, or equal with a lower metric", t,
+			"the update rule is violated")
+		sem.report(r, "C10.R2", "loop", "a route whose path contains the local id is never stored", t,
+			"a looping route is stored")
+		sem.report(r, "C10.R3", "disconnect", "RemoveRoutesFromPeer removes exactly the routes whose next hop is the peer", t,
+			"a disconnect leaves routes of the peer behind or removes routes of other peers")
+		sem.report(r, "C10.R4", "cleanup", "CleanupStaleRoutes keeps every route of the own origin", t,
+			"cleanup removes locally originated routes (or the wrong foreign ones)")
+	}
+	defer sem.override(r, func(rule, key, detail string) string {
+		if strings.HasSuffix(key, "critical section") {
+			return ""
+		}
+		switch rule {
+		case "C10.R1":
+			return "update"
+		case "C10.R2":
+			return "loop"
+		case "C10.R3":
+			return "disconnect"
+		case "C10.R4":
+			return "cleanup"
+		}
+		return ""
+	}, func(floor string) (string, *c08Table) {
+		t := m.tableNamed(floor)
+		switch {
+		case strings.Contains(floor, "overwrites a stored"):
+			return "update", t
+		case strings.Contains(floor, "route-introducing bucket writes"):
+			return "loop", t
+		case strings.Contains(floor, "keep/drop filter loop found under") && strings.Contains(floor, "RemoveRoutesFromPeer"):
+			return "disconnect", t
+		case strings.Contains(floor, "keep/drop filter loop found under") && strings.Contains(floor, "CleanupStaleRoutes"):
+			return "cleanup", t
+		}
+		return "", nil
+	})
+	for _, t := range m.tables {
+		m.c10Critical(r, t)
+	}
 	for _, t := range m.tables {
 		m.c10Update(r, t)
 		m.c10LoopCheck(r, t)
@@ -280,6 +359,146 @@ func (m *c08Model) c10EventsOnPath(fn *ssa.Function, path []*ssa.BasicBlock, sto
 	return out
 }
 
+// ---------- single critical section (check-then-act) ----------
+
+// c10Critical: every method of table t that takes the table mutex and (directly or through
+// helpers of the package) writes buckets performs all its bucket accesses inside one region of
+// that mutex, acquired by one write Lock. Reading under one acquisition and writing under
+// another (RLock pre-check then Lock, unlock/relock between decision and write, lock yielded
+// inside a filter) lets a concurrent operation change the bucket between check and act.
+func (m *c08Model) c10Critical(r *kit.Report, t *c08Table) {
+	p := m.p
+	// functions that touch / write buckets of t, transitively
+	touches := map[*ssa.Function]bool{}
+	writes := map[*ssa.Function]bool{}
+	replaces := map[*ssa.Function]bool{}
+	isAccess := func(in ssa.Instruction) bool {
+		switch x := in.(type) {
+		case *ssa.Lookup:
+			return c08RouteOfMap(x.X.Type()) == t.route
+		case *ssa.MapUpdate:
+			return c08RouteOfMap(x.Map.Type()) == t.route
+		case *ssa.Range:
+			return c08RouteOfMap(x.X.Type()) == t.route
+		case *ssa.Store:
+			if ia, ok := x.Addr.(*ssa.IndexAddr); ok && c08RouteOfSlice(ia.X.Type()) == t.route {
+				return m.bucketOf(ia.X) != nil
+			}
+		case ssa.CallInstruction:
+			if kit.CalleeOf(x).Built == "delete" && len(x.Common().Args) == 2 {
+				return c08RouteOfMap(x.Common().Args[0].Type()) == t.route
+			}
+		}
+		return false
+	}
+	for _, fn := range m.funcs {
+		kit.Instrs(fn, func(in ssa.Instruction) {
+			if isAccess(in) {
+				touches[fn] = true
+			}
+		})
+	}
+	for _, ev := range m.events {
+		if ev.tbl == t && ev.kind != "reset" {
+			writes[ev.fn] = true
+			if ev.kind == "replace" || ev.kind == "inplace" {
+				replaces[ev.fn] = true
+			}
+		}
+	}
+	for changed := true; changed; {
+		changed = false
+		for _, fn := range m.funcs {
+			for _, c := range kit.Calls(fn) {
+				g := kit.CalleeOf(c).Static
+				if g == nil || g == fn {
+					continue
+				}
+				for _, set := range []map[*ssa.Function]bool{touches, writes, replaces} {
+					if set[g] && !set[fn] {
+						set[fn] = true
+						changed = true
+					}
+				}
+			}
+		}
+	}
+	for _, fn := range p.Methods(c08Pkg, t.name) {
+		if !writes[fn] || t.mu == nil {
+			continue
+		}
+		li := kit.Locks(fn)
+		uses := false
+		for _, op := range li.Ops {
+			if op.Mutex == t.mu && op.Acquire {
+				uses = true
+			}
+		}
+		if !uses {
+			continue // helper called with the lock held
+		}
+		rule := ""
+		switch {
+		case replaces[fn]:
+			rule = "C10.R1"
+		case fn.Name() == "RemoveRoutesFromPeer":
+			rule = "C10.R3"
+		case fn.Name() == "CleanupStaleRoutes":
+			rule = "C10.R4"
+		default:
+			continue
+		}
+		var acc []ssa.Instruction
+		kit.Instrs(fn, func(in ssa.Instruction) {
+			if isAccess(in) {
+				acc = append(acc, in)
+				return
+			}
+			if c, ok := in.(ssa.CallInstruction); ok {
+				if _, isDefer := in.(*ssa.Defer); isDefer {
+					return
+				}
+				if g := kit.CalleeOf(c).Static; g != nil && touches[g] {
+					acc = append(acc, in)
+				}
+			}
+		})
+		bad := ""
+		var first ssa.Instruction
+		for _, a := range acc {
+			acq, held := li.HeldAt(a, t.mu)
+			if !held {
+				bad = "the bucket access at " + p.Pos(a.Pos()) + " is made without the table mutex"
+				break
+			}
+			if acq == nil {
+				bad = "the bucket access at " + p.Pos(a.Pos()) + " can be reached under different acquisitions of the table mutex (lock released and re-taken in between)"
+				break
+			}
+			write := false
+			for _, op := range li.Ops {
+				if op.Instr == acq && op.Acquire && !op.Read {
+					write = true
+				}
+			}
+			if !write {
+				bad = "the bucket access at " + p.Pos(a.Pos()) + " of this mutating operation is made under the read lock only"
+				break
+			}
+			if first == nil {
+				first = acq
+			} else if first != acq {
+				bad = "the bucket accesses at " + p.Pos(acc[0].Pos()) + " and " + p.Pos(a.Pos()) + " lie in different critical sections of the table mutex"
+				break
+			}
+		}
+		r.Count("critical_section_accesses", len(acc))
+		r.Decide(bad == "", rule, kit.FuncName(fn)+" single critical section", p.Pos(fn.Pos()),
+			fmt.Sprintf("all %d bucket accesses of the operation lie in one write-locked region", len(acc)),
+			bad+": the decision (is the stored entry older? which entries belong to the peer / are stale?) and the write are separated, so a concurrent operation can change the bucket in between and its effect is overwritten or resurrected")
+	}
+}
+
 // ---------- R1 ----------
 
 func (m *c08Model) c10Update(r *kit.Report, t *c08Table) {
@@ -298,6 +517,7 @@ func (m *c08Model) c10Update(r *kit.Report, t *c08Table) {
 	for _, fn := range order {
 		fname := kit.FuncName(fn)
 		key := fname + " update rule"
+		m.noteFn("C10.R1", key, t, fn)
 		pos := p.Pos(fn.Pos())
 		route := c10RouteParam(fn, t)
 		if route == nil {
@@ -561,38 +781,9 @@ func (m *c08Model) c10Update(r *kit.Report, t *c08Table) {
 				}
 			}
 		}
-		// decision and overwrite form one critical section of the table mutex (no check-then-act)
-		li := kit.Locks(fn)
-		usesLock := false
-		for _, op := range li.Ops {
-			if op.Mutex == t.mu {
-				usesLock = true
-			}
-		}
 		for _, ev := range m.events {
 			if ev.fn != fn || !isSlotWrite(ev) {
 				continue
-			}
-			if usesLock {
-				same := false
-				for _, ci := range cmpInstrs {
-					if li.SameRegion(ci, ev.instr, t.mu) {
-						same = true
-					}
-				}
-				acq, held := li.HeldAt(ev.instr, t.mu)
-				writeLock := false
-				for _, op := range li.Ops {
-					if op.Instr == acq && op.Acquire && !op.Read {
-						writeLock = true
-					}
-				}
-				switch {
-				case !held || (acq != nil && !writeLock):
-					bad = append(bad, "the overwrite at "+p.Pos(ev.instr.Pos())+" is not made under the table's write lock")
-				case !same:
-					bad = append(bad, "the sequence/metric comparison and the overwrite at "+p.Pos(ev.instr.Pos())+" are not in one critical section of the table mutex (check, unlock, lock, act): a concurrent AddRoute can install a newer route in between, which the older one then overwrites")
-				}
 			}
 			if ev.kind == "inplace" {
 				// an in-place refresh must carry over every field the properties depend on
@@ -1019,6 +1210,7 @@ func (m *c08Model) c10LoopCheck(r *kit.Report, t *c08Table) {
 		n++
 		fname := kit.FuncName(fn)
 		key := fmt.Sprintf("%s bucket %s #%d after loop check", fname, ev.kind, c08Ordinal(ord, fname+ev.kind))
+		m.noteFn("C10.R2", key, t, fn)
 		pos := p.Pos(ev.instr.Pos())
 		okCheck, why := m.c10GuardedAt(t, fn, ev.instr, route)
 		if !okCheck {
@@ -1199,6 +1391,7 @@ func (m *c08Model) c10Filters(r *kit.Report, t *c08Table, rootName, rule string)
 	}
 	// every bucket map of the table takes part
 	for _, bf := range t.buckets {
+		m.note(rule, fmt.Sprintf("%s.%s covers %s", t.name, rootName, bf.Name()), t)
 		r.Decide(fieldsSeen[bf], rule, fmt.Sprintf("%s.%s covers %s", t.name, rootName, bf.Name()), p.Pos(root.Pos()),
 			"the bucket map is read by the operation",
 			"bucket map "+bf.Name()+" is never visited by "+rootName+": its entries are left untouched by this maintenance operation")
@@ -1228,6 +1421,7 @@ func (m *c08Model) c10DecideFilter(r *kit.Report, t *c08Table, rule, rootName st
 	if ordinal > 0 {
 		key += fmt.Sprintf(" #%d", ordinal+1)
 	}
+	m.noteFn(rule, key, t, fn)
 	pos := p.Pos(fn.Pos())
 	var body, exit *ssa.BasicBlock
 	if flt.pred != nil {
@@ -1487,9 +1681,7 @@ func (m *c08Model) c10DecideFilter(r *kit.Report, t *c08Table, rule, rootName st
 			bad = append(bad, fmt.Sprintf("when %d entries are kept the filtered bucket is not written back to (or deleted from) the map: dropped entries stay stored", n))
 		}
 	}
-	if splitLock {
-		bad = append(bad, "the bucket is filtered and written back in different critical sections of the table mutex: routes added in between are lost or removed routes resurrected")
-	}
+	_ = splitLock // judged by the "single critical section" obligation of the operation
 	okMsg := "dropped iff NextHop == peer; filtered bucket written back"
 	if rule == "C10.R4" {
 		okMsg = "own-origin entries kept for every age; foreign entries kept when fresh, dropped when stale; bucket written back"
